@@ -95,10 +95,17 @@ def dayOfWeek (days : Nat) : Nat := (days + 4) % 7
 
 /-! ### the declarative meaning -/
 
-/-- the calendar day `days` is one the expression allows: month, day-of-month AND weekday -/
-def dayOk (e : Expr) (days : Nat) : Bool :=
-  let c := civil days
-  e.mon.testBit c.2.1 && e.dom.testBit c.2.2 && e.dow.testBit (dayOfWeek days)
+/-- day-of-month AND weekday of day `x` are allowed (ccronexpr's `find_next_day` looks at nothing else) -/
+def domDowOk (e : Expr) (x : Nat) : Bool := e.dom.testBit (civil x).2.2 && e.dow.testBit (dayOfWeek x)
+
+/-- the month of day `x` is allowed -/
+def monOk (e : Expr) (x : Nat) : Bool := e.mon.testBit (civil x).2.1
+
+/-- calendar year of day `x` -/
+def yearOf (x : Nat) : Nat := (civil x).1
+
+/-- the calendar day `x` is one the expression allows: day-of-month AND weekday AND month -/
+def dayOk (e : Expr) (x : Nat) : Bool := domDowOk e x && monOk e x
 
 /-- the second-of-day `s` (< 86400) is one the expression allows -/
 def timeOk (e : Expr) (s : Nat) : Bool :=
@@ -111,30 +118,75 @@ def MatchG (dayP timeP : Nat → Bool) (r : Nat) : Prop := dayP (r / 86400) = tr
 /-- instant `r` (seconds since the epoch, local time of the alarm) matches the expression -/
 def CronMatch (e : Expr) (r : Nat) : Prop := MatchG (dayOk e) (timeOk e) r
 
-/-! ### the executable search: first allowed day, then first allowed second of that day -/
+/-! ### the executable search, with ccronexpr's year horizon
+
+ccronexpr walks like this (`do_next`): find the next day whose day-of-month and weekday are allowed;
+if its month is allowed too, that is the day.  Otherwise jump to the first day of the next allowed
+month — and GIVE UP (`cron_next` returns (time_t)-1) if that day lies in a calendar year more than
+CRON_MAX_YEARS_DIFF = 4 after the year `dot` in which the search started
+(`if (calendar->tm_year - dot > 4) return -1`, checked only at such a jump).  `dot` is the year of `t`,
+or of `t+1` when `t` itself matches (cron_next then restarts one second later).
+So the result is the earliest matching instant after t, unless a jump lands beyond year dot+4 first. -/
 
 /-- least k in [lo, lo+n) with p k -/
 def leastFrom (p : Nat → Bool) : Nat → Nat → Option Nat
   | _, 0 => none
   | lo, n + 1 => if p lo then some lo else leastFrom p (lo + 1) n
 
+/-- outcome of the day search -/
+inductive DayResult where
+  | found (d : Nat)          -- the first allowed day
+  | beyond (l : Nat)         -- gave up: the jump to the next allowed month landed on day `l`, year(l) > dot + 4
+  | exhausted                -- the reference's own scan bounds ran out (never observed; not a ccronexpr outcome)
+deriving Repr, DecidableEq
+
+/-- the day search from day `p` (generic in the predicates; `limit` = dot + 4; `H` bounds one scan for a
+day-of-month/weekday hit, 400 days bound the scan for the next allowed month) -/
+def daySearch (ddP monP : Nat → Bool) (yearP : Nat → Nat) (limit H : Nat) : Nat → Nat → DayResult
+  | 0, _ => .exhausted
+  | fuel + 1, p =>
+    match leastFrom ddP p H with
+    | none => .exhausted
+    | some d =>
+      if monP d then .found d else
+      match leastFrom monP (d + 1) 400 with
+      | none => .exhausted
+      | some l => if yearP l > limit then .beyond l else daySearch ddP monP yearP limit H fuel l
+
+/-- the year the horizon is counted from (generic) -/
+def dotG (ddP monP : Nat → Bool) (yearP : Nat → Nat) (timeP : Nat → Bool) (t : Nat) : Nat :=
+  if ddP (t / 86400) && monP (t / 86400) && timeP (t % 86400) then yearP ((t + 1) / 86400) else yearP (t / 86400)
+
 /-- the search with the number of seconds per day as a parameter `n` (always 86400; a parameter so
 that proofs never unfold the scan over a large literal) -/
-def nextG (dayP timeP : Nat → Bool) (t horizon n : Nat) : Option Nat :=
+def nextG (ddP monP : Nat → Bool) (yearP : Nat → Nat) (timeP : Nat → Bool) (t H n : Nat) : Option Nat :=
   let day := t / 86400
   let s0 := t % 86400
-  let today := if dayP day then leastFrom (timeP) (s0 + 1) (n - (s0 + 1)) else none
-  match today with
-  | some s => some (day * 86400 + s)
-  | none =>
-    match leastFrom (timeP) 0 n with
-    | none => none                                  -- empty time-of-day set
-    | some s =>
-      match leastFrom (dayP) (day + 1) horizon with
-      | none => none
-      | some d => some (d * 86400 + s)
+  let dot := dotG ddP monP yearP timeP t
+  match leastFrom timeP 0 n with
+  | none => none                                  -- empty time-of-day set
+  | some sFirst =>
+    let later := leastFrom timeP (s0 + 1) (n - (s0 + 1))        -- an allowed second later today
+    let p0 := if later.isSome then day else day + 1
+    match daySearch ddP monP yearP (dot + 4) H 100 p0 with
+    | .found d =>
+      if d = day then later.map (fun s => day * 86400 + s) else some (d * 86400 + sFirst)
+    | _ => none
 
-/-- least matching instant strictly after `t`, looking at most `horizon` days past t's day -/
-def nextCron (e : Expr) (t horizon : Nat) : Option Nat := nextG (dayOk e) (timeOk e) t horizon 86400
+/-- ccronexpr's `cron_next` as the reference sees it: the earliest matching instant strictly after `t`,
+or none when the year horizon (or, never observed, a scan bound `H`) is hit first -/
+def nextCron (e : Expr) (t H : Nat) : Option Nat :=
+  nextG (domDowOk e) (monOk e) yearOf (timeOk e) t H 86400
+
+/-- the outcome of the day search inside `nextG` (generic) -/
+def dayResultG (ddP monP : Nat → Bool) (yearP : Nat → Nat) (timeP : Nat → Bool) (t H n : Nat) : DayResult :=
+  daySearch ddP monP yearP (dotG ddP monP yearP timeP t + 4) H 100
+    (if (leastFrom timeP (t % 86400 + 1) (n - (t % 86400 + 1))).isSome then t / 86400 else t / 86400 + 1)
+
+/-- ccronexpr's `dot`: the year of `t`, or of `t+1` when `t` itself matches -/
+def cronDot (e : Expr) (t : Nat) : Nat := dotG (domDowOk e) (monOk e) yearOf (timeOk e) t
+
+/-- why `nextCron` found nothing (for the horizon theorem and for the driver's tags) -/
+def nextCronDay (e : Expr) (t H : Nat) : DayResult := dayResultG (domDowOk e) (monOk e) yearOf (timeOk e) t H 86400
 
 end Tbox.C20.Cron
